@@ -16,6 +16,7 @@
 from __future__ import annotations
 
 import ast
+import re
 
 from ..cfg import ENTRY, EXIT, header_parts
 from ..effects import FS_WRITE
@@ -242,25 +243,68 @@ def rule_fresh_load(ctx: Ctx) -> None:
                 f"`{norm(cached[0])[:60]}` serves the object from a process-wide cache: all callers share one mutable object, so an in-place edit of a reloaded input/default shows up in every later reload although the folder is untouched", key=f"fresh-load {f.name}")
 
 
+def _path_shape(fn: FuncInfo, e: ast.AST) -> str:
+    """Spelling-independent shape of a `/`-built path: the base is `<base>`, literal segments are kept (module constants spelled
+    out), interpolated values become `{}`:  run_folder / 'outputs' / f'{name}.cloudpickle'  ->  <base>/outputs/{}.cloudpickle"""
+    def seg(x: ast.AST) -> str:
+        if isinstance(x, ast.Constant) and isinstance(x.value, str):
+            return x.value
+        if isinstance(x, ast.Name) and isinstance(fn.module.assigns.get(x.id), ast.Constant):
+            return str(fn.module.assigns[x.id].value)
+        if isinstance(x, ast.JoinedStr):
+            return "".join(str(v.value) if isinstance(v, ast.Constant) else "{}" for v in x.values)
+        if isinstance(x, ast.Call) and isinstance(x.func, ast.Attribute) and x.func.attr == "format":
+            return re.sub(r"\{[^}]*\}", "{}", seg(x.func.value))
+        if isinstance(x, ast.Attribute) and "template" in x.attr:
+            return "<template>"
+        return "{}"
+
+    parts: list[str] = []
+    while isinstance(e, ast.BinOp) and isinstance(e.op, ast.Div):
+        parts.append(seg(e.right))
+        e = e.left
+    return "/".join(["<base>", *reversed(parts)])
+
+
 def rule_paths(ctx: Ctx) -> None:
     P = ctx.prog
     ri = P.cls(f"{RI}.RunInfo")
     n_paths = 0
+    # pass 1: every hand-built path (a `/` with a literal segment), with what its function does to files
+    WRITES = {"dump", "mkdir", "write_bytes", "write_text", "atomic_write", "touch", "rename", "replace", "dumps"}
+    sites = []
     for mod in ("pipefunc.map._run", "pipefunc.map._run_info", "pipefunc.map._load", "pipefunc.map._prepare", "pipefunc.map.adaptive",
                 "pipefunc.map._storage_array._file", "pipefunc.map._storage_array._dict", "pipefunc.map._storage_array._base", "pipefunc.map.xarray"):
         for fn in P.functions_in(mod):
+            d_ = Defs(fn)
             for b_ in [b_ for b_ in walk_no_nested(fn.node) if isinstance(b_, ast.BinOp) and isinstance(b_.op, ast.Div)]:
                 if not any(isinstance(x, (ast.Constant, ast.JoinedStr)) and (not isinstance(x, ast.Constant) or isinstance(x.value, str)) for x in (b_.left, b_.right)) and "format(" not in norm(b_.right):
-                    continue
-                n_paths += 1
-                # a path helper is recognised by what it is: a function that only computes and returns paths (no file
-                # access of its own), so that writer and reader both have to go through it
+                    # a module-level constant as the literal segment counts too
+                    if not (isinstance(b_.right, ast.Name) and isinstance(fn.module.assigns.get(b_.right.id), ast.Constant)):
+                        continue
                 io = [c for c in walk_no_nested(fn.node) if isinstance(c, ast.Call) and _last(dotted(c.func) or (c.func.attr if isinstance(c.func, ast.Attribute) else "")) in IO_CALLS]
                 returns = any(isinstance(r, ast.Return) and r.value is not None for r in walk_no_nested(fn.node))
-                ok = fn.qualname in PATH_EXEMPT or (returns and not io)
-                ctx.tri("2-paths", fn, b_, ok, bool(io), "path built by a path helper (a function that only computes and returns paths)",
-                        f"`{norm(b_)[:70]}` builds a run-folder path by hand in a function that also accesses files (`{norm(io[0])[:40] if io else ''}`): writer and reader can drift apart",
-                        f"`{norm(b_)[:50]}`: neither a pure path helper nor a function accessing files", key=f"path in {fn.name}: {norm(b_)[:50]}")
+                text = _path_shape(fn, d_.resolve(b_))
+                writes = any(_last(dotted(c.func) or (c.func.attr if isinstance(c.func, ast.Attribute) else "")) in WRITES for c in io)
+                sites.append((fn, b_, text, io, returns, writes))
+    # pass 2: a pure helper is fine; a path built by hand in a function that accesses files is fine as long as every such READ
+    # path is spelled exactly like a WRITE path of the same class / module (writer and reader agree); a reader-only spelling is
+    # the drift the rule exists for
+    for fn, b_, text, io, returns, writes in sites:
+        n_paths += 1
+        if fn.qualname in PATH_EXEMPT or (returns and not io):
+            ctx.add("2-paths", fn, b_, True, "path built by a path helper (a function that only computes and returns paths)", key=f"path in {fn.name}: {norm(b_)[:50]}")
+            continue
+        written = {s_[2] for s_ in sites if s_[5]} | {s_[2] for s_ in sites if s_[4] and not s_[3]}  # writers and pure helpers, package-wide
+        maximal = not any(o[1] is not b_ and any(x is b_ for x in ast.walk(o[1])) for o in sites if o[0] is fn)
+        if not maximal:
+            ctx.add("2-paths", fn, b_, True, "prefix of a longer path expression (judged there)", key=f"path in {fn.name}: {norm(b_)[:50]}")
+            continue
+        agrees = writes or text in written
+        ctx.tri("2-paths", fn, b_, agrees, bool(io) and not writes and bool(written) and text not in written,
+                "hand-built path, spelled exactly like the path the writer of this class/module uses",
+                f"`{norm(b_)[:70]}` is built by hand in a function that reads files, and no writer (or path helper) of the same class/module spells the path that way (writers use {sorted(written)[:2]}): writer and reader can drift apart",
+                f"`{norm(b_)[:50]}`: no writer in this class/module to compare with", key=f"path in {fn.name}: {norm(b_)[:50]}")
     ctx.floor("2-paths", n_paths, 6)
     wr = ri.methods["_write"]
     reach = ctx.cg.reachable(wr.qualname)
@@ -462,7 +506,10 @@ def _proxy_fields(ctx: Ctx) -> dict[str, set[str]]:
                         for s in walk_no_nested(bi.node):
                             if isinstance(s, (ast.Assign, ast.AnnAssign)):
                                 tgt = s.targets[0] if isinstance(s, ast.Assign) else s.target
-                                if isinstance(tgt, ast.Attribute) and norm(tgt.value) == "self" and s.value is not None and isinstance(s.value, ast.Name) and s.value.id == k.arg:
+                                # `self._dict = mapping`, or the parameter behind a default (`{} if mapping is None else mapping`, `mapping or {}`)
+                                if isinstance(tgt, ast.Attribute) and norm(tgt.value) == "self" and s.value is not None and (
+                                        (isinstance(s.value, ast.Name) and s.value.id == k.arg)
+                                        or (isinstance(s.value, (ast.IfExp, ast.BoolOp)) and any(isinstance(x, ast.Name) and x.id == k.arg and not isinstance(pp, ast.Compare) for pp in ast.walk(s.value) for x in ast.iter_child_nodes(pp)))):
                                     out.setdefault(cls.qualname, set()).add(tgt.attr)
                         break
     return out
@@ -477,7 +524,7 @@ MUTANTS = [
            "        for key in [\"shapes\"]:\n            data[key] = {_maybe_str_to_tuple(k): tuple(v) for k, v in data[key].items()}\n", ("C04.1-table",)),
     Mutant("separator-mismatch", RIF, "        return \",\".join(x)\n", "        return \";\".join(x)\n", ("C04.1-table",)),
     Mutant("output-names-stay-list", RIF, "        data[\"all_output_names\"] = set(data[\"all_output_names\"])\n", "", ("C04.1-table",)),
-    Mutant("hand-built-path-in-loader", L, "    outputs = [_load_from_store(output_name, store).value for output_name in output_names]\n", "    _probe = run_folder / \"outputs\" / f\"{output_names[0]}.cloudpickle\"\n    outputs = [_load_from_store(output_name, store).value for output_name in output_names]\n", ("C04.2-paths",)),
+    Mutant("reader-spells-path-differently", D, "        self._dict.update(load(self._path()))\n", "        self._dict.update(load(self.folder / \"dictarray.cloudpickle\"))\n", ("C04.2-paths",)),
     Mutant("persist-proxy-F04", D, "        dump(dict(self._dict), path)  # `_dict` might be a manager proxy, which cannot be unpickled later\n", "        dump(self._dict, path)\n", ("C04.3-process",), why="original F04"),
     Mutant("pickle-first", U, "    with atomic_write(path, \"wb\") as f:\n        cloudpickle.dump(obj, f)\n", "    import pickle\n\n    with atomic_write(path, \"wb\") as f:\n        try:\n            f.write(pickle.dumps(obj))\n        except Exception:  # noqa: BLE001\n            cloudpickle.dump(obj, f)\n", ("C04.3-process",), why="seeded C04/3"),
     Mutant("load-outputs-fresh-store", L, "    run_info = RunInfo.load(run_folder)\n    store = run_info.init_store()\n    outputs = [", "    run_info = RunInfo.load(run_folder)\n    store = {name: run_folder / \"outputs\" / name for name in output_names}\n    outputs = [", ("C04.4-rebuild", "C04.2-paths")),
